@@ -60,9 +60,10 @@ CHECKS = {
             "join that cannot be moved all the way is refused with EngineError (operands in different engines), so WHENEVER the "
             "call succeeds the result has the columns and the multiset of rows of the join at the root; "
             "join_with_backtracking_and_transfer_sound - the same for either value of transfer (not finished and transfer=True: "
-            "the target is transferred into the database and joined there; the result then lives in the preferred engine). Proof "
+            "the target is transferred into the database and joined there; the result then lives in the preferred engine), and "
+            "join_with_every_option_sound for EVERY combination of backtrack / transfer / require_preferred_engine. Proof "
             "(partial): a Projection past a Deduplication (finding F04) is excluded by hypothesis; for joins an "
-            "explicit preferred engine other than the fixed relation's, backtrack=False and payload-holding Transfers on the way; and transfer=True "
+            "explicit preferred engine other than the fixed relation's and payload-holding Transfers on the way; and transfer=True "
             "COMBINED with back-tracking towards a SQL preferred engine from an iteration-engine target, are validated by correspondence + oracle. The proof attempt itself exposed three genuine defects, now repaired. " + CORR,
             "", "DESIGN.md 5/C03"),
     "C04": (PR, "Lean 4 theorems commute_sound_partial (all 49 operation-class pairs) and partial_join_commute_sound (a join past every operation class) + machine-checked counterexample for the one unsound pair + correspondence",
